@@ -33,6 +33,8 @@ def gen_case(seed, thorough_big=False):
     prefs = [r.random() < 0.6 for _ in range(40)]
     if r.random() < 0.2:
         inject_fault(M, r)
+    if r.random() < 0.3:
+        M["vary_xta"] = True      # commit/urgent lists split and in the other order, comments: only the documents are compared
     return M, prefs
 
 
@@ -89,7 +91,8 @@ class Runner:
         frames, lean, keys, texts = [], [], {}, {}
         for cid, (M, prefs) in cases.items():
             xml = m.XmlText(None).render(M)
-            xta = m.render_xta(M, prefs)
+            vary = random.Random(len(xml) * 7919 + len(cid)) if M.get("vary_xta") else None
+            xta = m.render_xta(M, prefs, vary)
             texts[cid] = (xml, xta)
             frames.append((cid + ".xml", m.frame("xml", cid + ".xml", xml)))
             frames.append((cid + ".xta", m.frame("xta", cid + ".xta", xta)))
@@ -142,7 +145,7 @@ class Runner:
             lxta = [l[9:] for l in lb if l.startswith("XTATRACE ")]
             lxml = [l[9:] for l in lb if l.startswith("XMLTRACE ")]
             ldoc = [l for l in lb if not l.startswith(("XTATRACE ", "XMLTRACE ")) and l.split(" ")[0] not in HDR]
-            d = m.first_diff([l[6:] for l in trt], lxta)
+            d = None if M.get("vary_xta") else m.first_diff([l[6:] for l in trt], lxta)
             if d:
                 res["trace_xta"] = {"line": d[0], "library": d[1], "model": d[2]}
             d = m.first_diff([l[6:] for l in trx], lxml)
